@@ -507,6 +507,25 @@ def template_programs(rng):
             m = proc(False, [], ['i'], seq([ass(var('i'), num(0)), whl(bi('<', var('i'), num(2)), ass(var('i'), bi('+', var('i'), num(1)))),
                                             iff(bi('=', call(nm, [num(1)]), num(10)), putc(num(89)), putc(num(78))), exit_(bi('+', call(nm, [var('i')]), call(nm, [num(5)])))]))
             out.append(('barename:%s:%d' % (nm, order), program([], {}, {nm: p, 'main': m}, {}, {}, [nm, 'main'] if order == 0 else ['main', nm])))
+    # tail calls whose actuals are bare formals in other positions (a compiler that turns them into jumps must assign the formals in parallel)
+    alt = proc(True, [('val', 'n'), ('val', 'p'), ('val', 'q')], [], iff(bi('=', var('n'), num(0)), ret(bi('-', var('p'), var('q'))), ret(call('alt', [bi('-', var('n'), num(1)), var('q'), var('p')]))))
+    rot = proc(True, [('val', 'n'), ('val', 'p'), ('val', 'q'), ('val', 'r')], [],
+               iff(bi('=', var('n'), num(0)), ret(bi('+', var('p'), bi('+', bi('+', var('q'), var('q')), bi('+', var('r'), bi('+', var('r'), var('r')))))),
+                   ret(call('rot', [bi('-', var('n'), num(1)), var('q'), var('r'), var('p')]))))
+    gcd = proc(True, [('val', 'p'), ('val', 'q')], [], iff(bi('=', var('q'), num(0)), ret(var('p')), iff(bi('<', var('p'), var('q')), ret(call('gcd', [var('q'), var('p')])),
+                                                                                                     ret(call('gcd', [bi('-', var('p'), var('q')), var('q')])))))
+    swp = proc(True, [('val', 'p'), ('val', 'q')], [], ret(call('sub2', [var('q'), var('p')])))
+    sub2 = proc(True, [('val', 'p'), ('val', 'q')], [], ret(bi('-', var('p'), var('q'))))
+    ev = proc(True, [('val', 'n'), ('val', 'p'), ('val', 'q')], [], iff(bi('=', var('n'), num(0)), ret(var('p')), ret(call('od', [bi('-', var('n'), num(1)), var('q'), var('p')]))))
+    od = proc(True, [('val', 'n'), ('val', 'p'), ('val', 'q')], [], iff(bi('=', var('n'), num(0)), ret(var('q')), ret(call('ev', [bi('-', var('n'), num(1)), var('q'), var('p')]))))
+    tp = {'alt': alt, 'rot': rot, 'gcd': gcd, 'swp': swp, 'sub2': sub2, 'ev': ev, 'od': od}
+    for n in (0, 1, 2, 3, 7):
+        out.append(('tail:alt:%d' % n, std_program(seq([putc(bi('+', num(60), call('alt', [num(n), num(9), num(4)]))), exit_(call('alt', [num(n), num(100), num(1)]))]), tp)))
+        out.append(('tail:rot:%d' % n, std_program(seq([exit_(call('rot', [num(n), num(1), num(10), num(100)]))]), tp)))
+        out.append(('tail:evod:%d' % n, std_program(seq([putc(bi('+', num(48), call('ev', [num(n), num(1), num(2)]))), exit_(call('od', [num(n), num(5), num(6)]))]), tp)))
+    for (x, y) in ((12, 18), (18, 12), (7, 7), (1, 9), (35, 14)):
+        out.append(('tail:gcd:%d:%d' % (x, y), std_program(seq([exit_(call('gcd', [num(x), num(y)]))]), tp)))
+    out.append(('tail:swp', std_program(seq([putc(bi('+', num(70), call('swp', [num(3), num(9)]))), exit_(call('swp', [num(1), num(50)]))]), tp)))
     # an array-element actual whose subscript holds a call, after actuals the callee uses as an address and as a subscript
     fill = proc(False, [('array', 'v'), ('val', 'i'), ('val', 'p')], [], ass(idx('v', var('i')), var('p')))
     addto = proc(True, [('array', 'v'), ('val', 'i'), ('val', 'p')], ['t'], seq([ass(var('t'), bi('+', idx('v', var('i')), var('p'))), ass(idx('v', var('i')), var('t')), ret(var('t'))]))
